@@ -414,6 +414,61 @@ def check_e2e_descriptions(res, acc, tier, rng):
     acc.n_e2e_desc = len(cases)
 
 
+FOLLOWERS = [
+    b"JSIGHT 0.3", b"INFO\n{I}  Title \"x\"", b"Title \"x\"", b"Version \"1\"", b"Description\n{I}  more", b"SERVER @s\n{I}  BaseUrl \"https://x.y\"",
+    b"BaseUrl \"https://x.y\"", b"URL /u\n{I}  GET\n{I}    200 any", b"GET /g\n{I}  200 any", b"POST /g\n{I}  200 any", b"PUT /g\n{I}  200 any",
+    b"PATCH /g\n{I}  200 any", b"DELETE /g\n{I}  200 any", b"GET\n{I}  200 any", b"Body any", b"Request any", b"Path\n{I}  {}", b"Headers\n{I}  {}",
+    b"Query \"a=1\"\n{I}  {}", b"TYPE @ty\n{I}  {}", b"ENUM @en\n{I}  [1]", b"MACRO @ma\n{I}(\n{I}  200 any\n{I})", b"PASTE @mm", b"INCLUDE inc.jst",
+    b"Protocol json-rpc-2.0", b"Method bar\n{I}  Params\n{I}    {}", b"Params\n{I}  {}", b"Result\n{I}  {}", b"TAG @tt", b"Tags @tg", b"200 any", b"404 any",
+    b"599 any", b"100",
+]
+FOLLOW_HOSTS = [
+    ("INFO", b"JSIGHT 0.3\nINFO\n  Title \"T\"\n  Description\n", b"  "),
+    ("GET", b"JSIGHT 0.3\nGET /x\n  Description\n", b"  "),
+    ("URL-GET", b"JSIGHT 0.3\nURL /x\n  GET\n    Description\n", b"    "),
+    ("Method", b"JSIGHT 0.3\nURL /r\n  Protocol json-rpc-2.0\n  Method foo\n    Description\n", b"    "),
+    ("TAG", b"JSIGHT 0.3\nTAG @t\n  Description\n", b"  "),
+]
+FOLLOW_TAIL = b"GET /last\n  200 any\nTAG @tg\nMACRO @mm\n(\n  200 any\n)\n"
+FOLLOW_TEXTS = [b"Returns the cats.\nUse with care.", b"one line", b"a\n\nb"]
+
+
+def check_e2e_followers(res, acc, tier, rng):
+    """a bare description ends where the next directive begins, whatever that directive is: for every host, every keyword of
+    the language (in a small directive of its kind, valid there or not) written after the description, at the indentation
+    of the Description keyword and at the left margin - the bare spelling and the parenthesised one must give the same
+    verdict, the same diagnostic text and the same catalog"""
+    cases = []
+    for hn, head, ind in FOLLOW_HOSTS:
+        for f in FOLLOWERS:
+            for text in FOLLOW_TEXTS:
+                for find in (ind, b"", ind + b"  "):
+                    fol = find + f.replace(b"{I}", find) + b"\n"
+                    tl = b"\n".join((ind + b"  " + l) if l else l for l in text.split(b"\n"))
+                    bare = head + tl + b"\n" + fol + FOLLOW_TAIL
+                    paren = head + ind + b"(\n" + tl + b"\n" + ind + b")\n" + fol + FOLLOW_TAIL
+                    cases.append((hn, f, bare, paren))
+    files = lambda d: [("a.jst", d), ("inc.jst", b"GET /inc\n  200 any\n")]
+    docs = sorted({c[2] for c in cases} | {c[3] for c in cases})
+    outs = dict(zip(docs, C.run_sharded("harness", "fn", [P.run_line("out=sha", files(d)) for d in docs])))
+    res.count(len(docs))
+    n_ok = 0
+    for hn, f, bare, paren in cases:
+        sa, da = P.parse(outs[bare])
+        sb, db = P.parse(outs[paren])
+        same = sa == sb and ((sa == "ok" and da.get("sha") == db.get("sha")) or (sa == "err" and da.get("msg") == db.get("msg")) or sa not in ("ok", "err"))
+        if sa == "ok" and same:
+            n_ok += 1
+            res.nontrivial((b"e2e-follower", hn.encode(), f))
+        if not same:
+            acc.spec_bad.append(("desc_spelling_e2e", "description", bare, "bare description of %s followed by %r: %s; the parenthesised spelling: %s" % (
+                hn, f.split(b"\n")[0], "accepted" if sa == "ok" else "%s %r" % (sa, C.unhx(da.get("msg", "-"))[:80]),
+                ("accepted" + (" with a different catalog" if sa == "ok" else "")) if sb == "ok" else "%s %r" % (sb, C.unhx(db.get("msg", "-"))[:80]))))
+    acc.n_e2e_follow = len(cases)
+    res.notes.setdefault("input_distribution", {})["e2e_followers"] = {"pairs": len(cases), "accepted_pairs": n_ok, "hosts": [h[0] for h in FOLLOW_HOSTS],
+                                                                        "followers": len(FOLLOWERS), "texts": len(FOLLOW_TEXTS)}
+
+
 KW_BYTES = [b"JSIGHT", b"INFO", b"Title", b"Version", b"Description", b"SERVER", b"BaseUrl", b"URL", b"GET", b"POST", b"PUT", b"PATCH",
             b"DELETE", b"Body", b"Request", b"Path", b"Headers", b"Query", b"TYPE", b"ENUM", b"MACRO", b"PASTE", b"INCLUDE", b"Protocol",
             b"Method", b"Params", b"Result", b"TAG", b"Tags"]
@@ -455,6 +510,7 @@ def run(res, tier, seed, replay):
         if rp.get("theorem", "").endswith("_e2e"):
             check_e2e_annotations(res, acc, tier, random.Random(seed))
             check_e2e_descriptions(res, acc, tier, random.Random(seed))
+            check_e2e_followers(res, acc, tier, random.Random(seed))
         elif rp.get("cmd", "description") == "annotation":
             check_annotations(res, acc, [s])
         else:
@@ -525,7 +581,10 @@ def run(res, tier, seed, replay):
     rng = random.Random(seed)
     check_e2e_annotations(res, acc, tier, rng)
     check_e2e_descriptions(res, acc, tier, rng)
+    check_e2e_followers(res, acc, tier, rng)
+    fol = (res.notes.get("input_distribution") or {}).get("e2e_followers")
     res.notes["input_distribution"] = {
+        "e2e_followers": fol,
         "end_to_end_annotation_documents": acc.n_e2e_annot, "end_to_end_description_documents": acc.n_e2e_desc,
         "description_inputs": sum(len(c) for c in chunks), "description_max_len": dlen,
         "annotation_inputs": len(ains), "annotation_max_len": alen, "trimspace_inputs": len(uins),
